@@ -150,6 +150,9 @@ pub struct UrlCase {
     pub source: String,
     pub source_reg: Option<String>,
     pub rtype: String,
+    /// C0-control / space padding around the URL and the source (stripped by URL parsing)
+    #[serde(default)]
+    pub pad: (String, String, String, String),
 }
 impl Case for UrlCase {
     fn smaller(&self) -> Vec<Self> {
@@ -162,6 +165,9 @@ impl Case for UrlCase {
         }
         if self.tail != "/" {
             v.push(UrlCase { tail: "/".into(), ..self.clone() });
+        }
+        if self.pad != Default::default() {
+            v.push(UrlCase { pad: Default::default(), ..self.clone() });
         }
         v
     }
@@ -194,6 +200,10 @@ pub fn check_url(c: &UrlCase, obs: &mut Obs) -> Result<(), String> {
         url.push_str(&format!(":{}", p));
     }
     url.push_str(&c.tail);
+    // leading/trailing C0 controls and spaces are not part of a URL
+    let url = format!("{}{}{}", c.pad.0, url, c.pad.1);
+    let source = if c.source.is_empty() { String::new() } else { format!("{}{}{}", c.pad.2, c.source, c.pad.3) };
+    let c = &UrlCase { source, ..c.clone() };
     let r = guard(|| Request::new(&url, &c.source, &c.rtype)).map_err(|p| format!("Request::new({:?}) panicked: {}", url, p))?;
     obs.inner_evals += 1;
     let q = match r {
@@ -252,6 +262,7 @@ pub fn check_url(c: &UrlCase, obs: &mut Obs) -> Result<(), String> {
         obs.nontrivial = true;
     }
     if naive_wrong { obs.label("last-two-labels-rule-would-be-wrong"); }
+    if c.pad != Default::default() { obs.label("c0-padding"); }
     if c.userinfo.is_some() { obs.label("userinfo"); }
     if c.port.is_some() { obs.label("port"); }
     if !c.host.is_ascii() { obs.label("idn"); }
@@ -282,7 +293,9 @@ fn decode_url(t: &mut Tape) -> UrlCase {
             (format!("https://{}/page?x=1", h2), Some(r2.to_string()))
         }
     };
-    UrlCase { scheme, userinfo, host: host.to_string(), host_ascii: ascii(host), reg: reg.to_string(), port, tail, source, source_reg, rtype: t.choose(gen::REQ_TYPES).to_string() }
+    let pads = ["", "", "", " ", "\t", "\n", "\u{0}", "\u{1}", "\u{1b}", "\u{1f}", " \u{0} ", "\r\n"];
+    let pad = if t.chance(1, 4) { (t.choose(&pads).to_string(), t.choose(&pads).to_string(), t.choose(&pads).to_string(), t.choose(&pads).to_string()) } else { Default::default() };
+    UrlCase { scheme, userinfo, host: host.to_string(), host_ascii: ascii(host), reg: reg.to_string(), port, tail, source, source_reg, rtype: t.choose(gen::REQ_TYPES).to_string(), pad }
 }
 
 pub fn check(ctx: &mut Ctx) {
